@@ -9,18 +9,30 @@ PROPS["C01"]["groups"] += [
      "specs": [spec("C01/filter/regex=" + p, "VerifC03Regex", {"regex": p, "notRegex": "", "maxlen": "xxxx"}) for p in _CROSS_PATTERNS] +
               [spec("C01/filter/notRegex=" + p, "VerifC03Regex", {"regex": "", "notRegex": p, "maxlen": "xxxx"}) for p in _CROSS_PATTERNS]},
     # a metric reaches the routes unless a drop-raw aggregation really consumed it (C11's obligation)
-    {"pkg": "table", "hdir": "table", "specs": [spec("C01/dropraw", "VerifC11DropRaw", {"regex": "^a(b|c)", "notRegex": "c$"})]},
+    {"pkg": "table", "hdir": "table", "specs": [spec("C01/dropraw", "VerifC11DropRaw", {"regex": "^a(b|c)", "notRegex": "c$"}),
+                                                 spec("C01/table-dest-filter/name-only", "VerifC03TableDestName")]},
+    # which destinations of a route "match" is decided on the metric name (C03's obligation)
+    {"pkg": "route", "hdir": "route", "specs": [spec("C01/dest-filter/name-only", "VerifC03DestName")]},
 ]
 PROPS["C01"]["bounds"] += "; plus (shared with C03 / C11) filter semantics on 4 regex shapes as regex and notRegex with names 0..4 bytes, and one drop-raw aggregation scenario"
 
 PROPS["C02"]["groups"] += [
     # what is validated must be the line as received: the plain input hands over whole lines up to the 64 KiB limit (C12's obligation)
-    {"pkg": "input", "hdir": "input", "specs": [spec("C02/input/long-line-handed-over-whole", "VerifC12Limits", {"path": "tcp"})]},
+    {"pkg": "input", "hdir": "input", "specs": [spec("C02/input/long-line-handed-over-whole", "VerifC12Limits", {"path": "tcp"}),
+                                                 spec("C02/input/udp-receive-loop", "VerifC12UDPLoop", {"L": "3"})]},
 ]
-PROPS["C02"]["bounds"] += "; plus (shared with C12) the plain TCP input on lines around the 65535-byte limit"
+PROPS["C02"]["bounds"] += "; plus (shared with C12) the plain TCP input on lines around the 65535-byte limit and the UDP receive loop on datagrams of 0..3 bytes"
 
 PROPS["C03"]["groups"] += [
     # the configured blacklist entries become filters with exactly the configured option (C20's obligation)
     {"pkg": "cfg", "hdir": "cfg", "overlays": _C20_OVERLAYS, "specs": [spec("C03/config/blacklist", "VerifC20Blacklist")]},
 ]
 PROPS["C03"]["bounds"] += "; plus (shared with C20) blacklist sections of the TOML configuration"
+
+PROPS["C05"]["groups"] += [
+    # pickle mode: the stream is a sequence of length-prefixed pickles, one per line, whatever the line length (C16's obligations)
+    {"pkg": "destination", "hdir": "destination", "specs":
+        [spec("C05/pickle-stream/name<=2", "VerifC16Pickle", {"maxname": "2", "maxts": "1", "tsprefix": "150000000"})] +
+        [spec("C05/pickle-stream/long-name=%d" % k, "VerifC16Pickle", {"maxname": "1", "longname": str(k), "maxts": "1", "tsprefix": "150000000"}) for k in (150, 1200, 5000)]},
+]
+PROPS["C05"]["bounds"] += "; pickle mode (shared with C16): one free line + one fixed line through Conn.Write, names of 1..2 free bytes and of 150 / 1200 / 5000 bytes"
